@@ -319,7 +319,8 @@ def r3_header_table(rep, src):
     # stored on the new member is an expression over the one header read; its cut is a slice of that buffer (literal bounds, a
     # slice constant, or a field of a struct format)
     from .. import paths
-    fpn = f.params()[0]
+    # (the file object is the first parameter of the static method -- the one after the class when it is a class method)
+    fpn = f.params()[1] if any(norm(d) == 'classmethod' for d in f.node.decorator_list) and len(f.params()) > 1 else f.params()[0]
     fnode, _inl = normalize.inline_helpers(f, depth=2)
     folder = paths.Folder(paths.module_consts(mod, f.cls or ''))
     ps = [p_ for p_ in paths.function_paths(fnode, folder) if p_.outcome[0] == 'return' and p_.outcome[1] is not None
@@ -1170,6 +1171,107 @@ def _fresh_attrs(src, known):
     return out
 
 
+def r6b_walk_by_interpretation(rep, src):
+    """the walk over the member headers, by interpretation: ArFile(fileobj=<model file>) interpreted (sa.heap, decided bytes) on an
+    archive of five members -- sizes odd, even, ZERO in the middle, one, two; two names used twice -- behind one model file object that
+    answers read / seek / tell from the archive bytes.  Afterwards, through the public accessors: the names in archive order, every
+    member with its size and the position of its data (so every header was read from the right place, padding included), and for a
+    name that occurs twice the LAST member of that name."""
+    import io
+    from .. import heap as H
+    mod = src.mod(M)
+    init = mod.method('ArFile', '__init__')
+    if init is None:
+        raise AnalysisError('%s:ArFile.__init__ not found' % M)
+    rep.saw_func(init)
+    MEMBERS = [('one', b'abc'), ('two', b'wxyz'), ('one', b''), ('three', b'q'), ('two', b'12')]
+
+    def header(name, size):
+        return ((name + '/').ljust(16) + '0'.ljust(12) + '0'.ljust(6) + '0'.ljust(6) + '644'.ljust(8) + str(size).ljust(10)).encode() + b'`\n'
+    ARCH, want = b'!<arch>\n', []
+    for name, data in MEMBERS:
+        ARCH += header(name, len(data))
+        want.append((name, len(data), len(ARCH)))
+        ARCH += data + (b'\n' if len(data) % 2 else b'')
+
+    def fileop(name):
+        def hook(it, a, k):
+            o = it.h.objs[a[0].name]
+            if o['__class__'] != 'File':
+                m_ = mod.method(o['__class__'], name)
+                if m_ is None:
+                    raise AnalysisError('%s.%s on the model archive' % (o['__class__'], name))
+                return it.call(H.Closure(m_.node, {}, a[0], m_.cls), list(a[1:]), k)
+            pos = o['pos']
+            if any(not (x is None or (isinstance(x, int) and not isinstance(x, bool))) for x in a[1:]):
+                raise AnalysisError('the model file is called with %r' % (a[1:],))
+            if name == 'read':
+                n = a[1] if len(a) > 1 else -1
+                if n is None or n < 0:
+                    n = max(len(ARCH) - pos, 0)
+                chunk = ARCH[pos:pos + n]
+                o['pos'] = pos + len(chunk)
+                return chunk
+            if name == 'seek':
+                wh = a[2] if len(a) > 2 else k.get('whence', 0)
+                o['pos'] = a[1] if wh == 0 else pos + a[1] if wh == 1 else len(ARCH) + a[1]
+                if o['pos'] < 0:
+                    raise H.Raised('OSError', it.h.version, 0)
+                return o['pos']
+            return pos
+        return hook
+    heap = H.Heap(mod, hooks={'.' + n_: fileop(n_) for n_ in ('read', 'seek', 'tell')})
+    heap.hooks['sys.getfilesystemencoding'] = lambda it, a, k: 'utf-8'
+    heap.hooks['.close'] = lambda it, a, k: None
+    it = H.Interp(heap)
+    fp = heap.alloc('File', {'pos': 0}, name='@fp')
+    ar = heap.alloc('ArFile', {})
+    what = 'the archive walk lists every member, in order, each at its place (interpreted)'
+    try:
+        it.call(H.Closure(init.node, {}, ar, init.cls), [], {'fileobj': fp})
+    except H.Raised as x:
+        rep.fail('C06.R6', init.site, what, 'ArFile(fileobj=...) raises %s (line %d) on an archive of five well-formed members (sizes 3, 4, 0, 1, 2)' % (x.exc, x.lineno), where=init.where)
+        return
+
+    def pub(expr, env):
+        v = it.ev(ast.parse(expr, mode='eval').body, env, None)
+        return v
+    names = [x_.concrete() if hasattr(x_, 'concrete') else x_ for x_ in it.seq(pub('ar.getnames()', {'ar': ar}))]
+    members = it.seq(pub('ar.getmembers()', {'ar': ar}))
+    off_attr = heap.fld('__offset', 'ArMember')
+    got = []
+    for m_ in members:
+        o_ = heap.objs[m_.name] if isinstance(m_, H.Ref) else {}
+        got.append((pub('m.name', {'m': m_}), pub('m.size', {'m': m_}), o_.get(off_attr)))
+    if names != [w_[0] for w_ in want] or got != want:
+        rep.fail('C06.R6', init.site, what, 'for the members %s (name, size, position of the data) the walk gives the names %r and the members %r: a member is skipped, the walk '
+                 'stops early (an EMPTY member is a member), or a header is read from the wrong place' % (want, names, got), where=init.where)
+    else:
+        rep.ok('C06.R6', init.site, what, '%d members: odd, even and zero sizes, two repeated names' % len(want))
+    what2 = 'a name that occurs twice is answered with the last member of that name (interpreted)'
+    bad = None
+    for name in ('one', 'two', 'three'):
+        last = max(i_ for i_, w_ in enumerate(want) if w_[0] == name)
+        try:
+            m_ = pub('ar.getmember(n)', {'ar': ar, 'n': name})
+        except H.Raised as x:
+            bad = bad or 'getmember(%r) raises %s' % (name, x.exc)
+            continue
+        if not (last < len(members) and m_ == members[last]):
+            k_ = next((i_ for i_, x_ in enumerate(members) if x_ == m_), None)
+            bad = bad or 'getmember(%r) answers with %s; the last member of that name is number %d' % (name, 'member number %d' % (k_ + 1) if k_ is not None else 'an object that is not in the list', last + 1)
+    try:
+        pub('ar.getmember(n)', {'ar': ar, 'n': 'absent'})
+        bad = bad or 'getmember of a name the archive does not hold returns instead of raising KeyError'
+    except H.Raised as x:
+        if x.exc != 'KeyError':
+            bad = bad or 'getmember of a name the archive does not hold raises %s' % x.exc
+    if bad:
+        rep.fail('C06.R6', init.site, what2, bad, where=init.where)
+    else:
+        rep.ok('C06.R6', init.site, what2, 'one, two, three; KeyError for an absent name')
+
+
 def canonical_member_names(src):
     """the private attributes of ArMember by ROLE, read off the code -- the shared file object (the attribute whose seek / read are
     called), the cursor (what it is positioned to before a read), the start of the data (set from fp.tell() where the member is made),
@@ -1252,7 +1354,15 @@ def check(src, rep, tier):
     rep.guard('C06.R1', r1_bounded_reads, src)
     rep.guard('C06.R2', r2_position_discipline, src)
     hdr = rep.guard('C06.R3', r3_header_table, src)
-    rep.guard('C06.R4', r4_padding, src)
+    from . import common
+    n_v, n_e = len(rep.violations), len(rep.errors)
+    rep.guard('C06.R6', r6b_walk_by_interpretation, src)
+    walk_holds = len(rep.violations) == n_v and len(rep.errors) == n_e
+    # (how the walk loop is written -- the padding arithmetic for BOTH parities of every size, the statements that list and index a
+    # member -- is the stronger reading where it applies; where the loop leaves its vocabulary the interpreted archive decides)
+    common.SoftAll(rep, lambda: walk_holds, 'the interpreted archive walk (C06.R6), which lists and indexes every member').guard('C06.R4', r4_padding, src)
+    if walk_holds and rep.min_instances.get('C06.R6'):
+        rep.min_instances['C06.R6'] = min(rep.min_instances['C06.R6'], sum(1 for i_ in rep.instances if i_.get('rule') == 'C06.R6'))
     rep.guard('C06.R5', r5_whence, src)
     rep.need('C06.R11', 4)
     rep.guard('C06.R11', r11_lookups, src)
